@@ -114,7 +114,7 @@ func discharge(o *Obligation, timeout int, cross bool) SolverResult {
 	var spent float64
 	seen := map[string]bool{}
 	var last SolverResult
-	for _, k := range []int{2, 4, -1, fullQuery} {
+	for _, k := range []int{1, 2, 4, -1, fullQuery} {
 		// both variants of one slice level race each other
 		type variant struct {
 			q    string
